@@ -15,6 +15,9 @@ from mdsa.cfg import walk_local
 from mdsa.loader import AnalysisError, dotted
 
 from . import c02
+from mdsa import match as MM
+
+from .sem import F
 from .common import Ctx, calls_named, fs_sinks, index_kind, local_defs, node_of
 
 EXPLANATION = (
@@ -151,30 +154,43 @@ def r2_uncommitted_recognisable(P, rep, ctx):
 
 def r2_manifest_after_commit(P, rep, ctx, rule="C11.R2"):
     fi = P.func("ih5.manifest.IH5MFRecord.commit_patch")
-    g = ctx.cfg(fi)
-    sup = [n.idx for n in g.nodes if any(call_attr(c) == "commit_patch" and isinstance(c.func, ast.Attribute) and isinstance(c.func.value, ast.Call) and norm(c.func.value.func) == "super" for c in g.calls(n.idx))]
-    mfsave = [n.idx for n in g.nodes if any(call_attr(c) == "save" for c in g.calls(n.idx))]
+    f = F(ctx, fi)
+    g = f.g
+    sup = f.calls("super().commit_patch(___)")
     if not sup:
         raise AnalysisError("C11.R2: IH5MFRecord.commit_patch does not call super().commit_patch")
+    all_saves = f.call_sites("__o.save(___)")
+    d0 = local_defs(fi)
+
+    def is_manifest_obj(e) -> bool:
+        if norm(e) in ("self.manifest", "self._manifest"):
+            return True
+        return isinstance(e, ast.Name) and any(v is not None and MM.match("self._fresh_manifest()", v) is not None for k, v in d0.get(e.id, []))
+
+    mfsave = sorted({i for i, c, b in all_saves if is_manifest_obj(b["__o"])})
     _order(rep, g, fi, rule, sup, mfsave, "the container commit (super().commit_patch)", "writing the manifest file")
     # and not reachable through the exception edge of the commit: manifest write must not be inside the try protecting the commit
     for m in mfsave:
-        in_try = any(isinstance(t, ast.Try) and any(x is g.nodes[m].stmt for b in t.body for x in ast.walk(b)) and any(x is g.nodes[s].stmt for s in sup for b in t.body for x in ast.walk(b)) for t in ast.walk(fi.node))
-        hpath = g.find_path(m, avoid=[])
+        in_try = any(isinstance(t, ast.Try) and any(x is g.nodes[m].stmt for b in t.body for x in ast.walk(b)) and any(x is g.nodes[s_].stmt for s_ in sup for b in t.body for x in ast.walk(b)) for t in ast.walk(fi.node))
         rep.check(not in_try, rule, fi.qual, "manifest is written outside the try block protecting the commit", fi.loc(g.nodes[m].stmt),
                   construct="manifest save placement", message="manifest file is written inside the try block of the container commit")
     # the manifest link is part of the *single* user-block write of the commit: it is attached before the container
     # commit, and the subclass performs no user-block write of its own
-    ub_saves = [c for c in local_calls(fi.node) if call_attr(c) == "save" and not any(call_attr(x) == "save" and x is c and norm(c.func.value) in ("mf", "self.manifest", "self._manifest") for x in [c])]
-    rep.check(not ub_saves, rule, fi.qual, "the manifest subclass writes no user block of its own (single write inside the container commit)", fi.loc(ub_saves[0]) if ub_saves else fi.loc(), construct=f"extra save calls {[norm(c)[:60] for c in ub_saves]}",
-              message=f"IH5MFRecord.commit_patch writes the user block a second time ({[norm(c)[:60] for c in ub_saves]}): a crash between the two writes leaves a container that opens as committed but lacks the manifest link it was committed with")
-    link1 = [n.idx for n in g.nodes if any(call_attr(c) == "update" and "IH5UBExtManifest(" in norm(c.func.value) and c.args and norm(c.args[0]) == "new_ub" for c in g.calls(n.idx))]
-    link2 = [n.idx for n in g.nodes if any(call_attr(c) == "_set_ublock" and len(c.args) > 1 and norm(c.args[0]) == "-1" and norm(c.args[1]) == "new_ub" for c in g.calls(n.idx))]
-    ok = bool(link1) and bool(link2) and all(g.every_path_passes(link1, x) for x in link2) and all(g.every_path_passes(link2, s) for s in sup)
+    extra = [(i, c, b) for i, c, b in all_saves if not is_manifest_obj(b["__o"]) and not any(is_manifest_obj(b2["__o"]) and i2 == i for i2, c2, b2 in all_saves)]
+    rep.check(not extra, rule, fi.qual, "the manifest subclass writes no user block of its own (single write inside the container commit)", fi.loc(extra[0][1]) if extra else fi.loc(), construct="extra save calls",
+              message=f"IH5MFRecord.commit_patch writes the user block a second time ({[norm(c)[:60] for i, c, b in extra]}): a crash between the two writes leaves a container that opens as committed but lacks the manifest link it was committed with")
+    installs = f.call_sites("self._set_ublock(-1, __u)")
+    links = f.call_sites("__e.update(__u)")
+    links = [(i, c, b) for i, c, b in links if "IH5UBExtManifest(" in f.x_at(i, b["__e"])]
+    new_blocks = {f.alias_root(i, b["__u"]) for i, c, b in links if isinstance(b["__u"], ast.Name)}
+    link1 = [i for i, c, b in links]
+    link2 = [i for i, c, b in installs if f.alias_root(i, b["__u"]) in new_blocks]
+    ok = bool(link1) and bool(link2) and f.all_hit_before(link2, nodes=link1) and f.all_hit_before(sup, nodes=link2)
     rep.check(ok, rule, fi.qual, "the manifest link is put into a copy of the user block, which is installed as the newest block before the (single) commit write", fi.loc(), construct="manifest link before commit",
               message="the user block written by the container commit does not carry the manifest link (extension not attached to new_ub, or new_ub not installed with _set_ublock(-1, new_ub) before super().commit_patch)")
-    nd = [norm(v) for k, v in local_defs(fi).get("new_ub", []) if v is not None]
-    rep.check(nd == ["old_ub.copy()"], rule, fi.qual, "the committed block is a copy of the current one (the original is kept for roll-back)", fi.loc(), construct=f"new_ub = {nd}", message=f"new_ub is {nd}")
+    d = local_defs(fi)
+    nd = sorted({MM.xtext(fi.node, v) for nb in new_blocks for k, v in d.get(nb, []) if v is not None})
+    rep.check(nd == ["self._ublock(-1).copy()"], rule, fi.qual, "the committed block is a copy of the current one (the original is kept for roll-back)", fi.loc(), construct=f"new_ub = {nd}", message=f"new_ub is {nd}")
     # failed commit restores the user block
     exc = [n for n in g.nodes if n.kind == "except"]
     for h in exc:
